@@ -21,7 +21,7 @@ func ExportNetwork(network *Network, basePath string) error {
 		dirPath = filepath.Join(basePath, netName)
 	}
 
-	err := os.MkdirAll(dirPath, 0666)
+	err := os.MkdirAll(dirPath, 0755)
 	if err != nil {
 		return err
 	}
